@@ -1,13 +1,486 @@
-//! C09 — not yet implemented
-use crate::core::{Ctx, Outcome};
-use serde_json::Value;
+//! C09 — Late or duplicate exchange messages never roll engine state back.
+//!
+//! E-BFS to **fixpoint** through the real `EngineState::update_from_account` / `update_from_market`
+//! on a 2-exchange, 2-instrument, 4-asset engine state. Items: two balances (one per exchange), two
+//! open orders (one per instrument), top of book and last traded price of both instruments.
+//! Messages: (item, exchange time t in {1,2,3}, value in {v,v'}), each deliverable any number of times
+//! in any order; full account snapshots carrying a balance and/or an order report of one exchange;
+//! `CancelSent` on an order (so held order data is also checked while a cancel is in flight).
+//!
+//! Monitor (rides in the state): per item the greatest timestamp delivered so far and the set of
+//! values delivered with it. Invariant after every step (the statement): the held timestamp equals
+//! that maximum and the held value is one delivered with it (so first-wins and last-wins at equal
+//! timestamps both pass); items not named by a message are bit-identical.
 
-pub fn run(_ctx: &Ctx) -> Outcome {
-    eprintln!("MACHINERY: C09 not implemented");
-    std::process::exit(2)
+use super::common::*;
+use crate::core::{Ctx, Outcome, hash_of};
+use crate::explore::bfs::{self, Model, Viol};
+use barter::{
+    Timed,
+    engine::state::{
+        global::DefaultGlobalData, instrument::data::DefaultInstrumentMarketData,
+        order::in_flight_recorder::InFlightRequestRecorder, trading::TradingState,
+    },
+};
+use barter_data::{
+    books::Level,
+    event::{DataKind, MarketEvent},
+    subscription::{book::OrderBookL1, trade::PublicTrade},
+};
+use barter_execution::{
+    AccountEvent, AccountEventKind, AccountSnapshot, InstrumentAccountSnapshot,
+    balance::{AssetBalance, Balance},
+    order::{
+        Order, OrderKey, OrderKind, TimeInForce,
+        id::{ClientOrderId, OrderId},
+        request::{OrderRequestCancel, RequestCancel},
+        state::{ActiveOrderState, CancelInFlight, Open, OrderState},
+    },
+};
+use barter_instrument::{
+    Side,
+    asset::{AssetIndex, name::AssetNameInternal},
+    exchange::ExchangeIndex,
+    index::IndexedInstruments,
+    instrument::InstrumentIndex,
+};
+use barter_integration::snapshot::Snapshot;
+use rust_decimal::Decimal;
+use serde::{Deserialize, Serialize};
+use serde_json::{Value, json};
+
+// item ids
+const BAL: [usize; 2] = [0, 1];
+const ORD: [usize; 2] = [2, 3];
+const L1: [usize; 2] = [4, 5];
+const TRD: [usize; 2] = [6, 7];
+const N_ITEMS: usize = 8;
+
+fn item_kind(i: usize) -> &'static str {
+    match i {
+        0 | 1 => "balance",
+        2 | 3 => "order",
+        4 | 5 => "top-of-book",
+        _ => "last-trade",
+    }
 }
 
-pub fn replay(_ctx: &Ctx, _case: &Value) {
-    eprintln!("MACHINERY: C09 not implemented");
-    std::process::exit(2)
+#[derive(Debug, Clone, Copy, PartialEq, Eq, Hash, Default)]
+pub struct ItemSt {
+    /// what the implementation holds: (t, value index)
+    held: Option<(u8, u8)>,
+    /// monitor: greatest timestamp delivered, and bitmask of values delivered with it
+    max_t: u8,
+    mask: u8,
+    /// order items only: a cancel is in flight
+    cancelling: bool,
+}
+
+#[derive(Debug, Clone, PartialEq, Eq, Hash)]
+pub struct St(Vec<ItemSt>);
+
+#[derive(Debug, Clone, PartialEq, Eq, Hash, Serialize, Deserialize)]
+pub enum Act {
+    /// deliver one message (item, t, value)
+    Msg(usize, u8, u8),
+    /// full account snapshot of the exchange of these items
+    Full(Vec<(usize, u8, u8)>),
+    CancelSent(usize),
+}
+
+pub struct M {
+    active: Vec<usize>,
+    instruments: IndexedInstruments,
+    bal_assets: [AssetIndex; 2],
+}
+
+impl M {
+    pub fn new(active: &[usize]) -> Self {
+        let instruments = IndexedInstruments::builder()
+            .add_instrument(spot(EXCHANGES[0], "x0_btc_usdt", "BTCUSDT", "btc", "usdt"))
+            .add_instrument(spot(EXCHANGES[1], "x1_eth_usdt", "ETH/USDT", "eth", "usdt"))
+            .build();
+        let a0 = instruments.find_asset_index(EXCHANGES[0], &AssetNameInternal::new("usdt")).unwrap();
+        let a1 = instruments.find_asset_index(EXCHANGES[1], &AssetNameInternal::new("usdt")).unwrap();
+        Self { active: active.to_vec(), instruments, bal_assets: [a0, a1] }
+    }
+
+    fn order_key(&self, which: usize) -> OrderKey {
+        OrderKey {
+            exchange: ExchangeIndex(which),
+            instrument: InstrumentIndex(which),
+            strategy: strategy_id(),
+            cid: ClientOrderId::new(format!("c{which}")),
+        }
+    }
+    fn open(&self, which: usize, t: u8, v: u8) -> Open {
+        Open { id: OrderId::new(format!("o{which}")), time_exchange: t_plus(t as i64), filled_quantity: Decimal::from(v) }
+    }
+    fn order_with<S>(&self, which: usize, state: S) -> Order<ExchangeIndex, InstrumentIndex, S> {
+        Order {
+            key: self.order_key(which),
+            side: Side::Buy,
+            price: Decimal::from(100),
+            quantity: Decimal::from(2),
+            kind: OrderKind::Limit,
+            time_in_force: TimeInForce::GoodUntilCancelled { post_only: false },
+            state,
+        }
+    }
+    fn balance(v: u8) -> Balance {
+        Balance::new(Decimal::from(10 + v as i64), Decimal::from(10 + v as i64))
+    }
+    fn l1(t: u8, v: u8) -> OrderBookL1 {
+        OrderBookL1 {
+            last_update_time: t_plus(t as i64),
+            best_bid: Some(Level::new(Decimal::from(100 + v as i64), Decimal::ONE)),
+            best_ask: Some(Level::new(Decimal::from(102 + v as i64), Decimal::ONE)),
+        }
+    }
+
+    fn build(&self, s: &St) -> EState {
+        let mut state: EState = barter::engine::state::EngineState::builder(
+            &self.instruments,
+            DefaultGlobalData,
+            DefaultInstrumentMarketData::default,
+        )
+        .time_engine_start(t0())
+        .trading_state(TradingState::Disabled)
+        .build();
+        for w in 0..2 {
+            if let Some((t, v)) = s.0[BAL[w]].held {
+                state.assets.asset_index_mut(&self.bal_assets[w]).balance = Some(Timed::new(Self::balance(v), t_plus(t as i64)));
+            }
+            let it = s.0[ORD[w]];
+            if let Some((t, v)) = it.held {
+                let st = if it.cancelling {
+                    ActiveOrderState::CancelInFlight(CancelInFlight { order: Some(self.open(w, t, v)) })
+                } else {
+                    ActiveOrderState::Open(self.open(w, t, v))
+                };
+                state.instruments.instrument_index_mut(&InstrumentIndex(w)).orders.0.insert(self.order_key(w).cid, self.order_with(w, st));
+            }
+            if let Some((t, v)) = s.0[L1[w]].held {
+                state.instruments.instrument_index_mut(&InstrumentIndex(w)).data.l1 = Self::l1(t, v);
+            }
+            if let Some((t, v)) = s.0[TRD[w]].held {
+                state.instruments.instrument_index_mut(&InstrumentIndex(w)).data.last_traded_price =
+                    Some(Timed::new(Decimal::from(100 + v as i64), t_plus(t as i64)));
+            }
+        }
+        state
+    }
+
+    /// read what the implementation holds for every item: (held, cancelling, readable)
+    fn read(&self, state: &EState) -> Vec<(Option<(u8, u8)>, bool, bool)> {
+        let tt = |d: chrono::DateTime<chrono::Utc>| -> u8 { (d - t0()).num_seconds().clamp(0, 250) as u8 };
+        let mut out = vec![(None, false, true); N_ITEMS];
+        for w in 0..2 {
+            if let Some(b) = &state.assets.asset_index(&self.bal_assets[w]).balance {
+                let v = (0..2u8).find(|v| Self::balance(*v) == b.value);
+                out[BAL[w]] = (Some((tt(b.time), v.unwrap_or(9))), false, v.is_some());
+            }
+            let inst = state.instruments.instrument_index(&InstrumentIndex(w));
+            if let Some(o) = inst.orders.0.get(&self.order_key(w).cid) {
+                let (open, cancelling) = match &o.state {
+                    ActiveOrderState::Open(o) => (Some(o), false),
+                    ActiveOrderState::CancelInFlight(c) => (c.order.as_ref(), true),
+                    ActiveOrderState::OpenInFlight(_) => (None, false),
+                };
+                match open {
+                    Some(op) => {
+                        let v: u8 = op.filled_quantity.try_into().unwrap_or(9);
+                        out[ORD[w]] = (Some((tt(op.time_exchange), v)), cancelling, v < 2);
+                    }
+                    None => out[ORD[w]] = (None, cancelling, false), // tracked without confirmed data: not reachable here
+                }
+            }
+            if inst.orders.0.len() > 1 || (inst.orders.0.len() == 1 && !inst.orders.0.contains_key(&self.order_key(w).cid)) {
+                out[ORD[w]].2 = false;
+            }
+            let l1 = &inst.data.l1;
+            if *l1 != OrderBookL1::default() {
+                let t = tt(l1.last_update_time);
+                let v = (0..2u8).find(|v| Self::l1(t, *v) == *l1);
+                out[L1[w]] = (Some((t, v.unwrap_or(9))), false, v.is_some());
+            }
+            if let Some(p) = &inst.data.last_traded_price {
+                let v = (0..2u8).find(|v| Decimal::from(100 + *v as i64) == p.value);
+                out[TRD[w]] = (Some((tt(p.time), v.unwrap_or(9))), false, v.is_some());
+            }
+        }
+        out
+    }
+
+    fn deliver(&self, state: &mut EState, item: usize, t: u8, v: u8) {
+        let w = item % 2;
+        match item {
+            0 | 1 => {
+                let _ = state.update_from_account(&AccountEvent {
+                    exchange: ExchangeIndex(w),
+                    kind: AccountEventKind::BalanceSnapshot(Snapshot(AssetBalance {
+                        asset: self.bal_assets[w],
+                        balance: Self::balance(v),
+                        time_exchange: t_plus(t as i64),
+                    })),
+                });
+            }
+            2 | 3 => {
+                let o: Order<ExchangeIndex, InstrumentIndex, OrderState<AssetIndex, InstrumentIndex>> =
+                    self.order_with(w, OrderState::active(self.open(w, t, v)));
+                let _ = state.update_from_account(&AccountEvent { exchange: ExchangeIndex(w), kind: AccountEventKind::OrderSnapshot(Snapshot(o)) });
+            }
+            4 | 5 => {
+                state.update_from_market(&MarketEvent {
+                    time_exchange: t_plus(t as i64),
+                    time_received: t_plus(10),
+                    exchange: EXCHANGES[w],
+                    instrument: InstrumentIndex(w),
+                    kind: DataKind::OrderBookL1(Self::l1(t, v)),
+                });
+            }
+            _ => {
+                state.update_from_market(&MarketEvent {
+                    time_exchange: t_plus(t as i64),
+                    time_received: t_plus(10),
+                    exchange: EXCHANGES[w],
+                    instrument: InstrumentIndex(w),
+                    kind: DataKind::Trade(PublicTrade { id: "x".into(), price: 100.0 + v as f64, amount: 1.0, side: Side::Buy }),
+                });
+            }
+        }
+    }
+}
+
+impl Model for M {
+    type State = St;
+    type Action = Act;
+
+    fn init(&self) -> Vec<St> {
+        vec![St(vec![ItemSt::default(); N_ITEMS])]
+    }
+
+    fn actions(&self, s: &St) -> Vec<Act> {
+        let mut v = Vec::new();
+        for &i in &self.active {
+            for t in 1..=3u8 {
+                for val in 0..2u8 {
+                    v.push(Act::Msg(i, t, val));
+                }
+            }
+            if ORD.contains(&i) && !s.0[i].cancelling {
+                v.push(Act::CancelSent(i));
+            }
+        }
+        // full snapshots: per exchange w, any (balance?, order?) combination with one (t,v) each
+        for w in 0..2 {
+            let b = BAL[w];
+            let o = ORD[w];
+            let ba = self.active.contains(&b);
+            let oa = self.active.contains(&o);
+            let tv: Vec<(u8, u8)> = (1..=3u8).flat_map(|t| (0..2u8).map(move |v| (t, v))).collect();
+            if ba {
+                for &(t, val) in &tv {
+                    v.push(Act::Full(vec![(b, t, val)]));
+                }
+            }
+            if oa {
+                for &(t, val) in &tv {
+                    v.push(Act::Full(vec![(o, t, val)]));
+                }
+            }
+            if ba && oa {
+                for &(t1, v1) in &tv {
+                    for &(t2, v2) in &tv {
+                        v.push(Act::Full(vec![(b, t1, v1), (o, t2, v2)]));
+                    }
+                }
+            }
+        }
+        v
+    }
+
+    fn step(&self, s: &St, a: &Act, out: &mut Vec<Viol>) -> Option<St> {
+        let mut state = self.build(s);
+        let msgs: Vec<(usize, u8, u8)> = match a {
+            Act::Msg(i, t, v) => {
+                self.deliver(&mut state, *i, *t, *v);
+                vec![(*i, *t, *v)]
+            }
+            Act::Full(items) => {
+                let w = items[0].0 % 2;
+                let mut balances = Vec::new();
+                let mut instruments = Vec::new();
+                for (i, t, v) in items {
+                    if BAL.contains(i) {
+                        balances.push(AssetBalance { asset: self.bal_assets[w], balance: Self::balance(*v), time_exchange: t_plus(*t as i64) });
+                    } else {
+                        instruments.push(InstrumentAccountSnapshot {
+                            instrument: InstrumentIndex(w),
+                            orders: vec![self.order_with(w, OrderState::active(self.open(w, *t, *v)))],
+                        });
+                    }
+                }
+                let _ = state.update_from_account(&AccountEvent {
+                    exchange: ExchangeIndex(w),
+                    kind: AccountEventKind::Snapshot(AccountSnapshot { exchange: ExchangeIndex(w), balances, instruments }),
+                });
+                items.clone()
+            }
+            Act::CancelSent(i) => {
+                let w = i % 2;
+                state.record_in_flight_cancel(&OrderRequestCancel { key: self.order_key(w), state: RequestCancel { id: None } });
+                vec![]
+            }
+        };
+        let via = match a {
+            Act::Msg(..) => "single",
+            Act::Full(_) => "full-snapshot",
+            Act::CancelSent(_) => "cancel-sent",
+        };
+        let got = self.read(&state);
+        let mut next = s.0.clone();
+        for i in 0..N_ITEMS {
+            let before = s.0[i];
+            let (held, cancelling, readable) = got[i];
+            let kind = item_kind(i);
+            if !readable {
+                out.push((format!("C09/{kind}/{via}/held-value-not-a-delivered-value"), format!("item={i} action={a:?} held={held:?}")));
+                return None;
+            }
+            match msgs.iter().find(|(mi, _, _)| *mi == i) {
+                Some(&(_, t, v)) => {
+                    // monitor update
+                    let (max_t, mask) = if t > before.max_t {
+                        (t, 1u8 << v)
+                    } else if t == before.max_t {
+                        (before.max_t, before.mask | (1 << v))
+                    } else {
+                        (before.max_t, before.mask)
+                    };
+                    let rel = if t > before.max_t { "newer" } else if t == before.max_t { "equal-time" } else { "older" };
+                    let ok = matches!(held, Some((ht, hv)) if ht == max_t && (mask >> hv) & 1 == 1);
+                    if !ok {
+                        let what = match held {
+                            None => "nothing-held",
+                            Some((ht, _)) if ht < max_t => "holds-older-timestamp",
+                            Some((ht, _)) if ht > max_t => "holds-timestamp-never-delivered",
+                            Some(_) => "value-not-delivered-with-held-timestamp",
+                        };
+                        out.push((
+                            format!("C09/{kind}/{via}/message-{rel}-than-held/{what}"),
+                            format!("item={i} before(held={:?},max_t={},mask={:#b}) message=(t={t},v={v}) after held={held:?}; expected t={max_t} with a value in mask {mask:#b}", before.held, before.max_t, before.mask),
+                        ));
+                        // re-synchronise the monitor with the implementation
+                        next[i] = match held {
+                            Some((ht, hv)) => ItemSt { held, max_t: ht, mask: 1 << hv, cancelling },
+                            None => ItemSt { held: None, max_t: 0, mask: 0, cancelling },
+                        };
+                    } else {
+                        next[i] = ItemSt { held, max_t, mask, cancelling };
+                    }
+                    if cancelling != before.cancelling {
+                        out.push((format!("C09/{kind}/{via}/cancel-marker-changed-by-report"), format!("item={i} action={a:?}")));
+                    }
+                }
+                None => {
+                    let want_cancelling = match a {
+                        Act::CancelSent(ci) if *ci == i => before.held.is_some() || before.cancelling,
+                        _ => before.cancelling,
+                    };
+                    if held != before.held {
+                        out.push((
+                            format!("C09/{kind}/{via}/item-not-named-by-message-changed"),
+                            format!("item={i} action={a:?} before={:?} after={held:?}", before.held),
+                        ));
+                        next[i] = match held {
+                            Some((ht, hv)) => ItemSt { held, max_t: ht, mask: 1 << hv, cancelling },
+                            None => ItemSt { held: None, max_t: 0, mask: 0, cancelling },
+                        };
+                    } else {
+                        next[i] = ItemSt { cancelling, ..before };
+                    }
+                    if cancelling != want_cancelling {
+                        out.push((format!("C09/{kind}/{via}/cancel-marker-unexpected"), format!("item={i} action={a:?} cancelling={cancelling} expected={want_cancelling}")));
+                    }
+                }
+            }
+        }
+        Some(St(next))
+    }
+
+    fn impl_hash(&self, s: &St) -> Option<u64> {
+        let v: Vec<_> = s.0.iter().map(|i| (i.held, i.cancelling)).collect();
+        Some(hash_of(&v))
+    }
+}
+
+fn models(tier: crate::core::Tier) -> Vec<(String, Vec<usize>)> {
+    let mut v = vec![
+        ("balances".to_string(), vec![BAL[0], BAL[1]]),
+        ("market-data/4-items".to_string(), vec![L1[0], L1[1], TRD[0], TRD[1]]),
+        ("orders+balance".to_string(), vec![ORD[0], ORD[1], BAL[0]]),
+        ("one-exchange-mixed".to_string(), vec![BAL[1], ORD[1], L1[1], TRD[1]]),
+    ];
+    if tier == crate::core::Tier::Thorough {
+        v.push(("account-items/4".to_string(), vec![BAL[0], BAL[1], ORD[0], ORD[1]]));
+        v.push(("cross-exchange-mixed/5".to_string(), vec![BAL[0], ORD[0], L1[0], TRD[1], ORD[1]]));
+    }
+    v
+}
+
+pub fn run(ctx: &Ctx) -> Outcome {
+    let (mut states, mut transitions, mut max_depth, mut impl_states) = (0usize, 0u64, 0usize, 0usize);
+    let mut parts = Vec::new();
+    let mut samples = Vec::new();
+    for (label, active) in models(ctx.tier) {
+        let m = M::new(&active);
+        let st = bfs::run(ctx, &m, &label, None, 30_000_000);
+        if !st.fixpoint {
+            eprintln!("MACHINERY: C09 BFS {label} did not reach its fixpoint");
+            std::process::exit(2);
+        }
+        states += st.states;
+        transitions += st.transitions;
+        max_depth = max_depth.max(st.max_depth);
+        impl_states += st.distinct_impl_states;
+        parts.push(json!({"model": label, "active_items": active, "states": st.states, "transitions": st.transitions, "max_depth": st.max_depth,
+            "distinct_impl_states": st.distinct_impl_states, "steps_with_oracle_violation": st.oracle_violation_steps}));
+        samples.extend(st.samples);
+    }
+    Outcome {
+        level: "model_checking",
+        coverage: json!({
+            "states": states,
+            "transitions": transitions,
+            "traces_validated_against_impl": transitions,
+            "max_depth": max_depth,
+            "fixpoint_reached": true,
+            "exhaustive": true,
+            "distinct_impl_states": impl_states,
+            "models": parts,
+            "samples": samples,
+            "rule": "BFS to fixpoint; items: 0,1 balances; 2,3 orders; 4,5 top of book; 6,7 last trade; messages (item, t in 1..3, value in 2) + full account snapshots + cancel-sent, all offered in every state; each transition rebuilds the real EngineState and applies the message through update_from_account / update_from_market",
+        }),
+        assumptions: vec![
+            "L1 events carry last_update_time == time_exchange (as every connector builds them)".into(),
+            "order reports keep quantity remaining > 0 (terminal reports belong to C01)".into(),
+            "timestamps in {1,2,3}, two values per item".into(),
+        ],
+    }
+}
+
+pub fn replay(ctx: &Ctx, case: &Value) {
+    let label = case["label"].as_str().unwrap_or("");
+    for (l, active) in models(crate::core::Tier::Thorough) {
+        if l == label {
+            let m = M::new(&active);
+            for (sig, detail) in bfs::replay(&m, case) {
+                ctx.violate(sig, detail, case.clone());
+            }
+            return;
+        }
+    }
+    eprintln!("MACHINERY: unknown model label {label}");
+    std::process::exit(2);
 }
